@@ -19,7 +19,7 @@ RULE = ('argument strings drawn per character from weighted classes (plain, ok-p
         '(install_dirs() with directories RELATIVE TO ANOTHER ROOT and absolute ones) or both, DESTDIR in the environment; the install / '
         'uninstall edges go through the reference evaluator and the real dash with doppel / patchelf / rm recorded: every file is copied to / '
         'removed from exactly DESTDIR + the directory the configuration denotes + its declared place, the rpath is the denoted library '
-        'directory, and the real make on the Make configuration of the same project delivers the same observations')
+        'directory, and the real make on the Make configuration of the same project delivers the same observations; install-dirs stage (in process): the same configurations given to a real Environment (toolchain entries before finalize, command line through finalize), the REAL _add_install_paths + NinjaFile.write, tied to Ninja/InstallDirs.v (variables written in the order of InstallRoot; value of every root under where-defined evaluation) and compared with the denoted directories')
 TRUSTED = ('R model Ninja/NinjaRead.v (lexer, $in/$out escaping) + Ninja/NinjaManifest.v (manifest structure, scoping, lookup order of '
            'command_of) is TRUSTED: no ninja binary exists in this sandbox; written from the Ninja manual / manifest_parser.cc / '
            'lexer.in.cc / eval_env.cc / graph.cc / util.cc; documented deviations are listed at the top of NinjaManifest.v and guarded at run time',
@@ -795,6 +795,71 @@ def _slashes(p):
     return re.sub('/+', '/', p).rstrip('/') or '/'
 
 
+def stage_w_install_dirs(rep, n):
+    """Ninja/InstallDirs.v against the real code, in process: a real Environment receives install directories the way a
+    toolchain file sets them (before finalize) and the way the command line does (finalize), the REAL _add_install_paths
+    writes them into a real NinjaFile.
+    (W) the variables written, in order, equal install_vars of the model (the order of InstallRoot);
+    (R) the text of the real NinjaFile.write goes through the reference evaluator: the value of every root equals ninja_dirs
+        of the model for the order that was written;
+    (oracle) and equals the directory the configuration denotes, computed by resolve_install_dirs from the configuration alone.
+    Returns (W/R disagreements, failing inputs)."""
+    from bfg9000.environment import Environment
+    from bfg9000.path import abspath, InstallRoot, Path, Root
+    from bfg9000.builtins import install as binstall
+    from bfg9000.backends.ninja.syntax import NinjaFile, Section
+    rng = random.Random('installdirs:%s' % rep.seed)
+    calls, impl, dis, found = [], [], [], 0
+    for k in range(n):
+        cfg = gen_install_config(rng, ['toolchain', 'cli', 'mixed', 'toolchain', 'default'][k % 5]) if k % 5 != 4 else \
+            {'toolchain': {}, 'cli': {}, 'destdir': ''}
+        env = Environment(abspath('/bfgdir'), 'ninja', None, abspath('/srcdir'), abspath('/builddir'))
+        for r, v in cfg['toolchain'].items():          # builtins/toolchain.py install_dirs(): Path.ensure(v, Root.absolute)
+            env.install_dirs[InstallRoot[r]] = Path(v[1], Root.absolute) if v[0] == 'abs' else Path(v[1], InstallRoot[v[2]])
+        env.finalize({InstallRoot[r]: abspath(v[1]) for r, v in cfg['cli'].items()}, (True, True), False)
+        nf = NinjaFile('build.bfg')
+        binstall._add_install_paths(nf, env)
+        eff = dict(ROOT_DEFAULTS)
+        eff.update(cfg['toolchain'])
+        eff.update(cfg['cli'])
+        enc = [[0, _slashes(eff[r][1])] if eff[r][0] == 'abs' else [1, ROOT_ORDER.index(eff[r][2]), eff[r][1].strip('/')] for r in ROOT_ORDER]
+        written = []
+        for name, value in nf._variables[Section.path]:
+            if name.name not in ROOT_ORDER:
+                continue
+            if isinstance(getattr(value, 'root', None), InstallRoot):
+                written.append((ROOT_ORDER.index(name.name), (1, ROOT_ORDER.index(value.root.name), value.suffix.strip('/'))))
+            else:
+                written.append((ROOT_ORDER.index(name.name), (0, _slashes(value.string()))))
+        calls.append(('ninja.install_vars', [enc]))
+        impl.append(written)
+        o = StringIO()
+        nf.write(o)
+        vals = ninjaparse.parse(o.getvalue()).vars
+        got = [_slashes(vals.get(r, '')) for r in ROOT_ORDER]
+        calls.append(('ninja.install_dirs', [[i for i, _ in written], enc]))
+        impl.append(got)
+        want = resolve_install_dirs(cfg)
+        rep.case('instdirs:%r' % (sorted(cfg.items()),), bool(cfg['toolchain'] or cfg['cli']))
+        rep.count('W:install-dirs:%d relative to another root, %d absolute, %d from the command line' % (
+            sum(1 for v in cfg['toolchain'].values() if v[0] == 'rel'), sum(1 for v in cfg['toolchain'].values() if v[0] == 'abs'), len(cfg['cli'])))
+        if got != [_slashes(want[r]) for r in ROOT_ORDER] and found < 5:
+            found += bool(rep.fail('ninja backend: install directories %r are written as the file-level variables %r, which Ninja evaluates to %r; '
+                                   'the configuration denotes %r' % ({k_: cfg[k_] for k_ in ('toolchain', 'cli')},
+                                                                     [(ROOT_ORDER[i], v) for i, v in written], dict(zip(ROOT_ORDER, got)), want),
+                                   {'channel': 'install-dirs', 'install_dirs_config': cfg, 'written': written, 'evaluated': got, 'denoted': want,
+                                    'text': o.getvalue()}))
+
+    def dec(name, r):
+        if name == 'ninja.install_vars':
+            return [(x[0], (0, d_str(x[1][1])) if x[1][0] == 0 else (1, x[1][1], d_str(x[1][2]))) for x in r]
+        return [d_str(x) or '/' for x in r]
+    for i, c, iv, mv in common.compare_model(rep, 'W:real _add_install_paths == install_vars; R: reference evaluator == ninja_dirs', calls, impl, dec, vm_limit=40):
+        dis.append((i, c, iv, mv))
+    rep.stage('W/R:install directories as file-level variables', configurations=n, disagreements=len(dis), failing_inputs=found)
+    return dis, found
+
+
 def install_records(recs, cwd):
     """Recorder records of doppel / patchelf / rm -> canonical observations:
     ('copy', absolute source, destination file), ('rpath', value, file), ('remove', file)"""
@@ -971,6 +1036,9 @@ def _run(rep):
     dis3, found3 = stage_t_env_ninja(rep, rng, (1500 if thorough else 250) * (5 if dis else 1))
     dis = dis + dis3
     found += found3
+    dis4, found4 = stage_w_install_dirs(rep, 400 if thorough else 80)
+    dis = dis + dis4
+    found += found4
     found += stage_oracle_ninja(rep, rng, (500 if thorough else 60) * (5 if dis else 1))
     from . import c06
     for i in range(12 if thorough else 2):
